@@ -142,6 +142,11 @@ func (c *Channel) initPQ() {
 	pqSize := int(math.Max(1, float64(c.nsqd.getOpts().MemQueueSize)/10))
 
 	c.inFlightMutex.Lock()
+	// messages dropped from the queue must not keep a stale index: a FIN/REQ/TOUCH that
+	// already holds one of them would otherwise index into the new (smaller) queue
+	for _, msg := range c.inFlightPQ {
+		msg.index = -1
+	}
 	c.inFlightMessages = make(map[MessageID]*Message)
 	c.inFlightPQ = newInFlightPqueue(pqSize)
 	c.inFlightMutex.Unlock()
